@@ -18,6 +18,7 @@ ap.add_argument('seed_id')
 ap.add_argument('--checks')
 ap.add_argument('--tier', default='quick')
 ap.add_argument('--keep', action='store_true')
+ap.add_argument('--note', default=None, help='history note kept in meta.json (e.g. initially missed, check strengthened)')
 a = ap.parse_args()
 
 src = os.path.abspath(a.src)
@@ -83,6 +84,8 @@ if a.keep and valid:
     shutil.copy(patch, os.path.join(dst, 'patch.diff'))
     shutil.copy(demo, os.path.join(dst, 'demo.py'))
     meta['evaluation'] = report
+    if a.note:
+        meta['history'] = a.note
     meta['what_was_run'] = ['git apply patch.diff in a scratch worktree of /repo HEAD', 'tools/baseline.py (241 pinned tests)', 'demo.py with and without the patch',
                             'VERIF_REPO=<worktree> ./check <id> --tier ' + a.tier]
     json.dump(meta, open(os.path.join(dst, 'meta.json'), 'w'), indent=1)
